@@ -13,6 +13,8 @@ pub type V3lc = paseto_v3_aws_lc::core::V3;
 pub type V4 = paseto_v4::core::V4;
 pub type V4s = paseto_v4_sodium::core::V4;
 
+/// implements every trait a blanket impl on tokens could be conditioned on (so a forbidden impl cannot hide behind a bound)
+#[derive(Clone, Debug, Default, PartialEq, Eq, PartialOrd, Ord, Hash)]
 pub struct Raw(pub Vec<u8>);
 impl Payload for Raw {
     const SUFFIX: &'static str = "";
@@ -26,4 +28,30 @@ impl Payload for Raw {
 }
 pub fn nv() -> NoValidation<Raw> {
     NoValidation::dangerous_no_validation()
+}
+
+impl paseto_core::encodings::Footer for Raw {
+    fn encode(&self, mut w: impl WriteBytes) -> Result<(), Box<dyn Error + Send + Sync>> {
+        w.write(&self.0);
+        Ok(())
+    }
+    fn decode(p: &[u8]) -> Result<Self, Box<dyn Error + Send + Sync>> {
+        Ok(Raw(p.to_vec()))
+    }
+}
+impl std::fmt::Display for Raw {
+    fn fmt(&self, f: &mut std::fmt::Formatter<'_>) -> std::fmt::Result {
+        write!(f, "{} bytes", self.0.len())
+    }
+}
+impl serde_core::Serialize for Raw {
+    fn serialize<S: serde_core::Serializer>(&self, s: S) -> Result<S::Ok, S::Error> {
+        s.serialize_bytes(&self.0)
+    }
+}
+impl<'de> serde_core::Deserialize<'de> for Raw {
+    fn deserialize<D: serde_core::Deserializer<'de>>(d: D) -> Result<Self, D::Error> {
+        let s = <String as serde_core::Deserialize>::deserialize(d)?;
+        Ok(Raw(s.into_bytes()))
+    }
 }
